@@ -12,6 +12,9 @@ CONSTANTS
   NumpyOps <- None_
   ReaderPerBlock = FALSE
   OverwriteTags <- None_
+  StickyKwargs = FALSE
+  LazySetitemLost = FALSE
+  SharedHandle = FALSE
 VIEW View
 INVARIANT TypeOK
 INVARIANT SameAsNumpy
